@@ -1,5 +1,6 @@
 """C03 Rolling extrema, arg-extrema, rank and normalisation are exact per window."""
 from common import TRUSTED, ASSUME, configs, add_rules
+import re
 import acc
 import idxkernel
 import sib
@@ -72,22 +73,75 @@ def _ifs(e):
     return [x for x in walk(e) if x.get('k') == 'If']
 
 
+def _cache_vars(m):
+    """(value cache, index cache) of an extreme kernel, by role: both are only ever assigned
+    (never accumulated); the index cache is the one assigned `Some(<position>)`."""
+    accs = m.accumulators()
+    ext = [a for a in accs.values() if all(u.op == 'Assign' for u in a['updates'])]
+    idx = [a for a in ext if all(
+        (lambda r: r.get('k') == 'Call' and strip_generics(r.get('callee', '')).endswith('Some') and
+         (m.idx_tag(r['ch'][1]) == 'END' or peel(r['ch'][1]).get('k') == 'Path'))(peel(u.rhs))
+        for u in a['updates'])]
+    val = [a for a in ext if a not in idx]
+    return val, idx
+
+
+_CMP = re.compile(r'^(!?)(.+)\.(sort_cmp_rev|sort_cmp)\((.+)\) is (.+)$')
+
+
+def _cmp_site(run, fn, node, block, env, where, cmpname, subj_want, idx_want):
+    """Decision table of one comparison site: the cache is replaced by (subject, position)
+    exactly on Less | Equal of `subject.<cmpname>(&cache)` and left alone otherwise."""
+    t = dtree.table(block, env)
+    upd, keep, sites, effs = set(), set(), set(), set()
+    ok_rows = True
+    for cs, leaf, ef in t:
+        cc = [_CMP.match(c) for c in cs if '.sort_cmp' in c]
+        ef = tuple(e for e in ef if ' := ' not in e)
+        if len(cc) != 1 or cc[0] is None:
+            ok_rows = False
+            continue
+        neg, subj, name, arg_, pats = cc[0].groups()
+        sites.add((subj, name, arg_))
+        ps = {x.strip() for x in pats.split('|')}
+        if ef:
+            effs.add(frozenset(ef))
+            if neg:
+                ok_rows = False
+            upd |= ps
+        elif neg:
+            keep |= {'Ordering::Less', 'Ordering::Equal', 'Ordering::Greater'} - ps
+        else:
+            keep |= ps
+    cmp_ok = ok_rows and sites == {(subj_want, cmpname, 'CACHE')}
+    run.ob('EXT.cmp', fn, '%s comparison' % where, cmp_ok, loc(node),
+           'compares %s (expected %s.%s(&cache))' % (sorted(sites), subj_want, cmpname))
+    tie_ok = ok_rows and upd == {'Ordering::Less', 'Ordering::Equal'} and \
+        not (keep & {'Ordering::Less', 'Ordering::Equal'})
+    run.ob('EXT.tie', fn, '%s update arms' % where, tie_ok, loc(node),
+           'cache replaced on %s, kept on %s' % (sorted(upd), sorted(keep)))
+    want = frozenset({'CACHE = %s' % subj_want, 'CIDX = Some(%s)' % idx_want})
+    run.ob('EXT.tie', fn, '%s assigns (value, index)' % where, effs == {want}, loc(node),
+           '; '.join(sorted(' , '.join(sorted(e)) for e in effs)))
+
+
 def extreme_kernel(run, m, rev, arg):
     fn = m.k.fn
     m.classify()
-    accs = m.accumulators()
-    ext = [a for a in accs.values() if all(u.op == 'Assign' for u in a['updates'])]
-    names = sorted(a['name'] for a in ext)
-    val = [n for n in names if not n.endswith('_idx')]
-    idx = [n for n in names if n.endswith('_idx')]
+    val, idx = _cache_vars(m)
     if len(val) != 1 or len(idx) != 1:
-        run.ob('EXT.expiry', fn, 'cache variables', False, fn.loc(), 'found %s' % names)
+        run.ob('EXT.expiry', fn, 'cache variables', False, fn.loc(),
+               'found value caches %s, index caches %s' % ([a['name'] for a in val], [a['name'] for a in idx]))
         return
-    V, I = val[0], idx[0]
+    V, I = val[0]['name'], idx[0]['name']
+    vloc, iloc = val[0]['updates'][0].target['local'], idx[0]['updates'][0].target['local']
+    env = {lid: t for lid, t in m.tags.items()}
+    env[vloc], env[iloc] = 'CACHE', 'CIDX'
     cmpname = 'sort_cmp_rev' if rev else 'sort_cmp'
     other = 'sort_cmp' if rev else 'sort_cmp_rev'
-    # expiry test
-    exp_if = [x for x in _ifs(m.body) if src(peel(x['ch'][0])) in ('(%s < start)' % I, '(%s <= start)' % I)]
+    # expiry test: `idx < start` (`<=` is an accepted variant: the rescan covers start..=end)
+    exp_if = [x for x in _ifs(m.body)
+              if dtree.conj(x['ch'][0], dict(env)) in (['(CIDX < OLDIDXOPT)'], ['(CIDX <= OLDIDXOPT)'])]
     ok = len(exp_if) == 1 and len(exp_if[0]['ch']) == 3
     run.ob('EXT.expiry', fn, 'expiry test `%s < start`' % I, ok, loc(exp_if[0]) if exp_if else fn.loc(),
            '%d expiry test(s) with an else branch' % len(exp_if))
@@ -106,56 +160,37 @@ def extreme_kernel(run, m, rev, arg):
             m.idx_tag(hi) == 'END'
         det = 'rescan range `%s`' % src(r)
         # the rescan starts from the element at start
-        init = [u for u in m.updates if u.target['name'] == V and
+        init = [u for u in m.updates if u.target['local'] == vloc and
                 any(y is u.node for y in walk(then)) and not any(y is u.node for y in walk(loops[0]))]
         okr = okr and len(init) == 1 and m.tag_of(init[0].rhs) == 'OLD0'
         det += '; seeded with x[start]: %s' % (len(init) == 1 and m.tag_of(init[0].rhs) == 'OLD0')
     run.ob('EXT.expiry', fn, 'rescan covers start..=end', okr, loc(then), det)
-    # tie rule + comparator in rescan and incoming
-    matches = [(x, 'rescan') for x in walk(then) if x.get('k') == 'Match'] + \
-              [(x, 'incoming') for x in walk(els) if x.get('k') == 'Match']
-    run.ob('EXT.tie', fn, 'two comparison sites', len(matches) == 2, loc(X),
-           '%d comparison site(s)' % len(matches))
-    for x, where in matches:
-        scr = peel(x['ch'][0])
-        cmp_ok = scr.get('k') == 'MethodCall' and callee_is(scr, 'IsNone::' + cmpname) and \
-            src(peel(scr['ch'][1])) in (V, '&' + V)
-        subj = src(peel(scr['ch'][0])) if scr.get('k') == 'MethodCall' else '?'
-        arms = [(pat_src(a['pat']), a['body']) for a in x['arms']]
-        upd = [p for p, b in arms if any(u.node is y for u in m.updates for y in walk(b))]
-        tie_ok = len(upd) == 1 and set(upd[0].replace(' ', '').split('|')) == \
-            {'Ordering::Less', 'Ordering::Equal'}
-        run.ob('EXT.cmp', fn, '%s comparison' % where, cmp_ok, loc(x),
-               '`%s` (expected %s.%s(&%s))' % (src(scr)[:60], subj, cmpname, V))
-        run.ob('EXT.tie', fn, '%s update arms' % where, tie_ok, loc(x),
-               'cache replaced on `%s`' % (upd[0] if upd else 'no arm'))
-        # what is assigned
-        ups = [u for u in m.updates if any(u.node is y for a in x['arms'] for y in walk(a['body']))]
-        want_idx = 'i' if where == 'rescan' else 'end'
-        a_ok = len(ups) == 2 and {u.target['name'] for u in ups} == {V, I}
-        for u in ups:
-            if u.target['name'] == I:
-                a_ok = a_ok and src(peel(u.rhs)) == 'v1::Some(%s)' % want_idx
-            else:
-                a_ok = a_ok and src(peel(u.rhs)) == subj
-        run.ob('EXT.tie', fn, '%s assigns (value, index)' % where, a_ok, loc(x),
-               '; '.join(src(u.node) for u in ups))
+    # tie rule + comparator in rescan and incoming, as decision tables
+    if len(loops) == 1:
+        lenv = dict(env)
+        for b in _pat_binds(loops[0]['pat']):
+            lenv[b['local']] = 'i'
+        _cmp_site(run, fn, loops[0], loops[0]['ch'][1], lenv, 'rescan', cmpname, 'self.uget(i)', 'i')
+    _cmp_site(run, fn, els, els, dict(env), 'incoming', cmpname, 'NEW0', 'END')
+    ncmp = [x for x in walk(m.body) if x.get('k') == 'MethodCall' and callee_is(x, 'IsNone::' + cmpname)]
+    run.ob('EXT.tie', fn, 'two comparison sites', len(ncmp) == 2, loc(X),
+           '%d comparison site(s)' % len(ncmp))
     # no stray use of the other comparator
     stray = [x for x in walk(m.body) if x.get('k') == 'MethodCall' and callee_is(x, 'IsNone::' + other)]
     run.ob('EXT.cmp', fn, 'no %s' % other, not stray, loc(stray[0]) if stray else fn.loc(),
            '%d use(s) of the opposite comparator' % len(stray))
     # first valid element seeds the cache
-    first = [x for x in _ifs(m.body) if src(peel(x['ch'][0])) == '%s.is_none()' % I]
+    first = [x for x in _ifs(m.body) if dtree.conj(x['ch'][0], dict(env)) == ['!VALID(CIDX)']]
     okf = False
     if len(first) == 1:
         ups = [u for u in m.updates if any(u.node is y for y in walk(first[0]['ch'][1]))]
-        okf = {u.target['name'] for u in ups} == {V, I} and 'VALID(NEW0)' in ups[0].guards and \
-            all((src(peel(u.rhs)) == 'v1::Some(end)') if u.target['name'] == I else
+        okf = {u.target['local'] for u in ups} == {vloc, iloc} and 'VALID(NEW0)' in ups[0].guards and \
+            all((m.idx_tag(peel(u.rhs)['ch'][1]) == 'END') if u.target['local'] == iloc else
                 (m.tag_of(u.rhs) == 'NEW0') for u in ups)
     run.ob('EXT.expiry', fn, 'first valid element seeds the cache', okf,
            loc(first[0]) if first else fn.loc(), 'under v.is_some() && %s.is_none()' % I)
     # order: seed < expiry < result < count decrement
-    res_reads = [x for x in walk(m.body) if x.get('k') == 'Path' and x.get('name') in (V, I)
+    res_reads = [x for x in walk(m.body) if x.get('k') == 'Path' and x.get('local') in (vloc, iloc)
                  and x['_seq'] > max(y['_seq'] for y in walk(X))]
     run.ob('EXT.expiry', fn, 'cache read only after the expiry step', bool(res_reads) and
            (not first or first[0]['_seq'] < X['_seq']), loc(X),
@@ -163,25 +198,25 @@ def extreme_kernel(run, m, rev, arg):
     # result expression
     if arg:
         maps = [x for x in walk(m.body) if x.get('k') == 'MethodCall' and x['method'] == 'map' and
-                src(peel(x['ch'][0])) == I]
+                peel(x['ch'][0]).get('local') == iloc]
         okm = False
         det = 'no `%s.map(..)`' % I
         if len(maps) == 1:
             cl = peel(maps[0]['ch'][1])
-            env = Env()
-            p = norm(cl['ch'][0], env)
+            env2 = Env()
+            p = norm(cl['ch'][0], env2)
             pn = cl['params'][0]['name']
             u = [a for a in p.atoms() if a[0] == 'fn' and a[1] == 'unwrap_or']
-            okm = len(u) == 1 and p == sym(pn) - Poly.atom(u[0]) + Poly.const(1) and \
-                'start' in str(u[0]) and src(peel([y for y in walk(cl) if y.get('k') == 'MethodCall'
-                                                   and y['method'] == 'unwrap_or'][0]['ch'][1])) == '0'
+            uo = [y for y in walk(cl) if y.get('k') == 'MethodCall' and y['method'] == 'unwrap_or']
+            okm = len(u) == 1 and p == sym(pn) - Poly.atom(u[0]) + Poly.const(1) and len(uo) == 1 and \
+                m.idx_tag(uo[0]['ch'][0]) == 'OLDIDXOPT' and src(peel(uo[0]['ch'][1])) == '0'
             det = 'offset = %s' % p.show()
         run.ob('EXT.result', fn, '1-based offset from the window start', okm,
                loc(maps[0]) if maps else fn.loc(), det)
     else:
         lv = acc.result_leaves(m, acc.count_acc(m), acc.gate_form(m)['local'])
         nn = [e for e, g in lv if not acc.is_null_literal(e)]
-        okm = len(nn) == 1 and src(peel(nn[0])) == V
+        okm = len(nn) == 1 and peel(nn[0]).get('local') == vloc
         run.ob('EXT.result', fn, 'reports the cached value', okm, fn.loc(),
                'non-null result: %s' % [src(e)[:40] for e in nn])
 
@@ -207,14 +242,12 @@ def rank_kernel(run, m):
                             env[s['pat']['local']] = 'v'
         env[loops[0]['pat']['local']] = 'i'
         tbl = dtree.table(loops[0]['ch'][1], env)
-        want = {(frozenset({'VALID(self.uget(i))', '(self.uget(i) < v)'}), '()', ('rank AddAssign 1.',)),
-                (frozenset({'VALID(self.uget(i))', '(v <= self.uget(i))', '(self.uget(i) == v)'}), '()',
-                 ('n_repeat AddAssign 1',)),
-                (frozenset({'VALID(self.uget(i))', '(v <= self.uget(i))', '(self.uget(i) != v)'}), '()', ()),
-                (frozenset({'!VALID(self.uget(i))'}), '()', ())}
-        # canonical orientation of == may differ
-        tbl2 = {(frozenset(c.replace('(v == self.uget(i))', '(self.uget(i) == v)') for c in cs), l, e)
-                for cs, l, e in tbl}
+        want = dtree.Table([
+            (frozenset({'VALID(self.uget(i))', '(self.uget(i) < v)'}), '()', ('rank AddAssign 1.',)),
+            (frozenset({'VALID(self.uget(i))', '(self.uget(i) == v)'}), '()', ('n_repeat AddAssign 1',)),
+            (frozenset({'VALID(self.uget(i))', '(v < self.uget(i))'}), '()', ()),
+            (frozenset({'!VALID(self.uget(i))'}), '()', ())])
+        tbl2 = tbl
         okt = tbl2 == want
         guard = any(x.get('k') == 'If' and 'VALID(NEW0)' in m.preds(x['ch'][0]) and
                     any(y is loops[0] for y in walk(x['ch'][1])) for x in walk(m.body))
